@@ -14,6 +14,7 @@ var monitors = map[string]func(*core.Child){
 	"c03": codec.C03,
 	"c12": codec.C12,
 	"c13": codec.C13,
+	"c18": codec.C18,
 }
 
 func main() { core.ChildMain(monitors) }
